@@ -62,10 +62,11 @@ type Thread struct {
 	rig         *Rig
 }
 
-// Grant records a lock acquisition.
+// Grant records a lock event: an acquisition, or (Release) the matching unlock.
 type Grant struct {
 	Thread, Slot int
 	Excl         bool
+	Release      bool
 }
 
 type Rig struct {
@@ -81,6 +82,8 @@ type Rig struct {
 	excl       map[int]*Thread
 	shared     map[int]map[*Thread]bool
 	Grants     []Grant
+	Events     []Grant  // acquisitions and releases in the order they happened
+	MultiHeld  string   // set when a connection was granted a key lock while holding another one
 	ModelSched [][2]int // model-level schedule: (thread, panic 0/1)
 	LockSlot   uint32
 	Err        string
@@ -395,7 +398,19 @@ func (r *Rig) Step(id int) bool {
 			}
 			r.shared[t.pending.slot][t] = true
 		}
-		r.Grants = append(r.Grants, Grant{t.ID, t.pending.slot, t.pending.excl})
+		// the property: a connection never holds more than one key lock at a time
+		for sl, h := range r.excl {
+			if h == t && sl != t.pending.slot {
+				r.MultiHeld = fmt.Sprintf("thread %d was granted lock %d while still holding lock %d", t.ID, t.pending.slot, sl)
+			}
+		}
+		for sl, m := range r.shared {
+			if m[t] && sl != t.pending.slot {
+				r.MultiHeld = fmt.Sprintf("thread %d was granted lock %d while still holding lock %d", t.ID, t.pending.slot, sl)
+			}
+		}
+		r.Grants = append(r.Grants, Grant{t.ID, t.pending.slot, t.pending.excl, false})
+		r.Events = append(r.Events, Grant{t.ID, t.pending.slot, t.pending.excl, false})
 	}
 	failedBefore := t.failed
 	t.resume <- struct{}{}
@@ -408,6 +423,7 @@ func (r *Rig) Step(id int) bool {
 				} else {
 					delete(r.shared[ev.slot], ev.owner)
 				}
+				r.Events = append(r.Events, Grant{id, ev.slot, ev.excl, true})
 				continue
 			}
 			ev.owner.pending = ev
